@@ -316,6 +316,23 @@ def run(ctx):
                         out.append(t.split(b": ", 1)[1] if b": " in t else t)
                 return out
             ok = norm(refl) == norm(gotl)
+            # the process id inside 'identifier[pid]:' is a stored field (_PID, else SYSLOG_PID): where both programs print one for
+            # the same line, it is the same one
+            def pids(lines):
+                out = []
+                for l in lines:
+                    t = strip_ts(fmt, l)
+                    m = re.match(rb"^\S+ [^\[\]:]+\[(\d+)\]: ", t) if t is not None else None
+                    out.append(m.group(1) if m else None)
+                return out
+            if ok:
+                pr, pg = pids(refl), pids(gotl)
+                bad = [(i, x, y) for i, (x, y) in enumerate(zip(pr, pg)) if x is not None and y is not None and x != y]
+                ctx.count("short renderings: [pid] fields compared with journalctl", sum(1 for x, y in zip(pr, pg) if x is not None and y is not None))
+                if bad:
+                    ctx.violation("C09|short-pid-differs", "%s: line %d has [%s], journalctl prints [%s] (%d lines differ)" % (
+                        fmt, bad[0][0], bad[0][2].decode(), bad[0][1].decode(), len(bad)), info=info,
+                        files={"observed.stdout": r.out[:200000], "journalctl.stdout": ref["shorts"][fmt][:200000]})
             if not ok:
                 ctx.violation("C09|%s-text-differs" % fmt, "%s output differs from journalctl's beyond the timestamps" % fmt, info=info,
                               files={"observed.stdout": r.out[:200000], "journalctl.stdout": ref["shorts"][fmt][:200000]})
